@@ -35,3 +35,10 @@ package control_loop
 //@   params (maxPwmChangePerCycle)
 //@   ensures result != nil && fresh(result)
 //@   modifies nothing
+
+// ---- constructors (C04) -----------------------------------------------------------------------------------------
+//@ func NewPidControlLoop
+//@   params (p, i, d)
+//@   props C04
+//@   ensures[C04.new.pid] result != nil && fresh(result) && result.pidLoop != nil && same(result.pidLoop.p, p) && same(result.pidLoop.i, i) && same(result.pidLoop.d, d)
+//@   modifies nothing
